@@ -129,6 +129,7 @@ func stackM3Values(c *mon.Ctx, r *mon.Rand, kinds map[string]bool) {
 	}
 	states := make([]*wstate, nW)
 	hspecV := []float64{-1, 0, 2.5, 10, 10, 100}
+	hspecD := []time.Duration{0, time.Millisecond, 10 * time.Millisecond, time.Second}
 	base := mon.RefName(prefix, ".", "")
 	// handles shared by all workers (obtained once, used concurrently)
 	sharedScope := root.Tagged(map[string]string{"w": "all"})
@@ -149,7 +150,17 @@ func stackM3Values(c *mon.Ctx, r *mon.Rand, kinds map[string]bool) {
 				own := root.Tagged(wt)
 				id := func(n, ww string) string { return base + n + "|w" + ww }
 				for i := 0; i < iters; i++ {
-					switch wr.Intn(7) {
+					switch wr.Intn(8) {
+					case 7:
+						// a duration histogram, samples beyond the largest bound included
+						xs := []time.Duration{-1, 0, 1, time.Millisecond, 5 * time.Millisecond, time.Second, time.Minute, time.Hour}
+						x := xs[wr.Intn(len(xs))]
+						own.Histogram("hd", tally.DurationBuckets(hspecD)).RecordDuration(x)
+						k := id("hd", strconv.Itoa(w))
+						if st.hCounts[k] == nil {
+							st.hCounts[k] = map[int]int64{}
+						}
+						st.hCounts[k][mon.RefPairIndexD(hspecD, x)]++
 					case 0:
 						v := int64(wr.Range(0, 1000))
 						own.Counter("c").Inc(v)
